@@ -13,7 +13,8 @@ Open Scope Z_scope.
 
 Inductive rtable :=
 | TAlphaIds | TGroupEnabled | TGroupInfo | THalftone | TTransfer | TDisplayInfo | TLayerSel | TGridGuides
-| TPrintFlagsInfo | TResolution | TPixelAspect | TPrintScale.
+| TPrintFlagsInfo | TResolution | TPixelAspect | TPrintScale
+| TNumeric.                                   (* base.NumericElement: one double *)
 
 Definition model_alpha_modes : list Z := [0; 1; 2].          (* AlphaChannelMode *)
 Definition model_print_styles : list Z := [0; 1; 2].        (* PrintScaleStyle *)
@@ -26,6 +27,7 @@ Definition rt_head (k : rtable) : list fspec :=
   | TResolution => [FU 4; FU 2; FU 2; FU 4; FU 2; FU 2]                (* "I2HI2H" *)
   | TPixelAspect => [FU 4; FU 8]                                       (* "Id" *)
   | TPrintScale => [FU 2; FU 4; FU 4; FU 4]                            (* "H3f" *)
+  | TNumeric => [FU 8]                                                 (* "d" *)
   | _ => []
   end.
 Definition rt_count (k : rtable) : option nat :=
